@@ -8,8 +8,9 @@ from props.C20 import ref_oracle
 THEOREMS = ['C02_split_range', 'C02_split_cost', 'C02_contract_limits', 'C02_transport_flows', 'C02_storage_recursion',
             'C02_holding_cost', 'C02_take_prorated', 'C02_portfolio_blocks',
             'C02_lp_to_reference', 'C02_reference_to_lp', 'C02_optimum_is_reference_optimum', 'C02_every_point_is_blocks',
-            'C02_transport_unit', 'C02_storage_unit', 'C02_contract_unit', 'C02_contract_takes_unit', 'C02_multi_unit', 'C02_ext_transport_unit', 'C02_generated_portfolio_under_theorems']
-REF_NAMES = ['hypotheses of the instance theorems hold for every asset (unit_hyps)', 'asset names distinct', 'x has one entry per model variable',
+            'C02_transport_unit', 'C02_storage_unit', 'C02_contract_unit', 'C02_contract_takes_unit', 'C02_multi_unit', 'C02_ext_transport_unit', 'C02_generated_portfolio_under_theorems',
+            'C02_coarse_unit', 'C02_coarse_contract_builder', 'C02_coarse_transport_builder', 'C02_coarse_storage_builder', 'C02_coarse_unit_is_builder']
+REF_NAMES = ['hypotheses of the instance theorems hold for every asset (unit_hyps_c)', 'asset names distinct', 'x has one entry per model variable',
              'EAO value = - textbook cost of the decoded solution', 'reported dispatch = textbook flows of the decoded solution',
              'textbook flows balance at every node and step']
 CFG = {'p_coarse': 0.0, 'p_periodic': 0.0, 'T': (3, 9), 'n_assets': (1, 4), 'nodes': (1, 3), 'p_window': 0.4, 'p_wacc': 0.5, 'p_market': 0.9,
@@ -18,7 +19,7 @@ CFG = {'p_coarse': 0.0, 'p_periodic': 0.0, 'T': (3, 9), 'n_assets': (1, 4), 'nod
 
 
 def run(ctx):
-    if not ctx.proof_gate(THEOREMS, ['Ref.vo', 'Reference.vo', 'RefCorr.vo']):
+    if not ctx.proof_gate(THEOREMS, ['Ref.vo', 'Reference.vo', 'RefCoarse.vo', 'RefCorr.vo']):
         return
     n = 80 if ctx.tier == 'quick' else 600
     specs = util.corpus(ctx.prop) + gen.gen_many(ctx.seed, n, CFG, 'c02_')
@@ -51,6 +52,9 @@ def run(ctx):
     # the hypotheses of the theorems on the model of the portfolio (so C02_optimum_is_reference_optimum speaks about it) and the textbook
     # program -- cost, flows, nodal balance -- on what the implementation returned
     cov = gen.gen_many(ctx.seed, n // 2, dict(CFG, kinds={'SimpleContract': 2, 'Contract': 3, 'Transport': 2, 'Storage': 4, 'MultiCommodityContract': 2, 'ExtendedTransport': 2}, p_storage_price=0.2), 'c02t_')
+    # assets on a coarser frequency (RefCoarse.v): contracts, transports, storages next to fine assets of every covered class
+    cov += gen.gen_many(ctx.seed, n // 2, dict(CFG, p_coarse=0.7, freqs=['h', '30min'], T=(4, 9), p_window=0.0, p_storage_price=0.2,
+                                               kinds={'SimpleContract': 3, 'Contract': 1, 'Transport': 3, 'Storage': 4, 'MultiCommodityContract': 1}), 'c02co_')
     pool = [sp for sp in specs if not sp['id'].startswith('c02L_')] + ctx.specs(cov)
     have = {sp['id']: o for sp, o in zip(specs, res)}
     todo = [sp for sp in pool if sp['id'] not in have]
@@ -72,7 +76,7 @@ def run(ctx):
             C.qvec(o['x']), C.q(o['value']), C.lst(['(%s, %s, %s)' % (C.s(a), C.s(nn), C.qvec(v)) for a, nn, v in tab]), C.q(2e-6)))
         owners.append(sp)
         ctx.count('composition: evaluated')
-    vals = C.run_coq_exprs('C02r', 'Num LP Cert Mapping Dcf Grid Assets StorageProofs Portfolio Ref Reference Corr RefCorr', exprs, chunk=6)
+    vals = C.run_coq_exprs('C02r', 'Num LP Cert Mapping Dcf Grid Assets StorageProofs Portfolio Ref Reference RefCoarse Corr RefCorr', exprs, chunk=6)
     for sp, v in zip(owners, vals):
         ctx.cov['correspondence']['cases'] += 1
         ctx.cov['correspondence']['components_compared'] += len(REF_NAMES)
